@@ -714,7 +714,13 @@ impl LuaPathToken {
     pub fn get_path(&self) -> &str {
         let text = self.token.text();
         if text.starts_with('\"') || text.starts_with('\'') {
-            &text[1..text.len() - 1]
+            // an unterminated path is just the opening quote, possibly followed by text
+            let end = if text.len() >= 2 && text.ends_with(&text[..1]) {
+                text.len() - 1
+            } else {
+                text.len()
+            };
+            &text[1..end]
         } else {
             text
         }
